@@ -203,6 +203,13 @@ func runFrame(id string, toks []string) (res string) {
 				break
 			}
 		}
+		// a second receiver gets all messages back to back in ONE reader and decrypts them by successive Decrypt calls
+		p2 := newSess(peer[role], k)
+		if ctr != 0 {
+			setCounters(p2, ctr, ctr)
+		}
+		var allWire, allMsgs []byte
+		wireOK := true
 		var pending []io.Reader
 		if lazy {
 			for _, m := range toks[4:] {
@@ -227,9 +234,12 @@ func runFrame(id string, toks []string) (res string) {
 			}
 			if err != nil {
 				out = append(out, fmt.Sprintf("w%d=err", i))
+				wireOK = false
 				continue
 			}
 			w, _ := ioutil.ReadAll(er)
+			allWire = append(allWire, w...)
+			allMsgs = append(allMsgs, msg...)
 			out = append(out, fmt.Sprintf("w%d=%s", i, hx(w)))
 			if pt, ok := refOpenAll(rk, ctr, w); ok {
 				out = append(out, fmt.Sprintf("r%d=%s", i, hx(pt)))
@@ -243,6 +253,26 @@ func runFrame(id string, toks []string) (res string) {
 			} else {
 				d, _ := ioutil.ReadAll(dr)
 				out = append(out, fmt.Sprintf("d%d=%s", i, hx(d)))
+			}
+		}
+		if wireOK && len(allWire) > 0 {
+			r := bytes.NewBuffer(allWire)
+			var got []byte
+			bad := ""
+			for r.Len() > 0 && bad == "" {
+				dr, err := p2.Decrypt(r)
+				if err != nil {
+					bad = fmt.Sprintf("error-after-%d-bytes", len(got))
+					break
+				}
+				d, _ := ioutil.ReadAll(dr)
+				got = append(got, d...)
+			}
+			if bad == "" && !bytes.Equal(got, allMsgs) {
+				bad = fmt.Sprintf("%d-of-%d-bytes", len(got), len(allMsgs))
+			}
+			if bad != "" {
+				out = append(out, "stream="+bad)
 			}
 		}
 		return strings.Join(out, " ")
@@ -277,6 +307,24 @@ func runFrame(id string, toks []string) (res string) {
 			released = append(released, d...)
 		}
 		return "out=" + hx(released) + " st=clean"
+	case "sealf":
+		// sealf <shared> <role> <chunk|->...   a peer that frames by itself: one frame per chunk, empty chunks included
+		k := sharedKey(toks[1])
+		rk := refKey(k[:], encLabel[toks[2]])
+		aead, _ := chacha20poly1305.New(rk)
+		var out []byte
+		for i, m := range toks[3:] {
+			var pt []byte
+			if m != "-" {
+				pt = unhex(m)
+			}
+			var nonce [12]byte
+			binary.LittleEndian.PutUint64(nonce[4:], uint64(i))
+			aad := []byte{byte(len(pt)), byte(len(pt) >> 8)}
+			out = append(out, aad...)
+			out = aead.Seal(out, nonce[:], pt, aad)
+		}
+		return "w0=" + hx(out)
 	case "seal":
 		k := sharedKey(toks[1])
 		rk := refKey(k[:], encLabel[toks[2]])
